@@ -113,6 +113,9 @@ def dependencies(ctx, L):
     # the separators: the one string of punctuation the value is split on (normal form: `for y in '<separators>': acc = acc.replace(y, ' ')`)
     alph = [n for n in c.walk() if isinstance(n, ast.Constant) and isinstance(n.value, str) and len(n.value) >= 3
             and not any(ch.isalnum() or ch.isspace() for ch in n.value)]
+    iterated = [n for n in alph if any(isinstance(lp, ast.For) and lp.iter is n for lp in c.walk())]
+    if len(iterated) == 1:
+        alph = iterated
     if len(alph) != 1:
         raise AnalysisError('Constant.dependencies: separator alphabet not found')
     red = re.match(r'.*', repr(alph[0].value))
